@@ -95,6 +95,26 @@ Theorem C03_swapaxes : forall a1 a2 s i, np_swapaxes_ok (length s) a1 a2 = true 
 Proof. exact swapaxes_np. Qed.
 Print Assumptions C03_swapaxes.
 
+(* moveaxis (single axes or lists, negative spellings included), every source of dimension <= 5
+   with any extents: the axis order it builds is NumPy's, it is a permutation, shape and element
+   are NumPy's and the index stays inside the source.
+   PARTIAL: dimension > 5 is not proved (the order depends on the dimension and the axis lists
+   only; the finite argument space of dimension 0..5 is swept by kernel computation, lemma
+   moveaxis_sweep); larger dimensions are covered by the correspondence only. *)
+Theorem C03_moveaxis_upto_dim5_partial : forall sa da s i, (length s <= 5)%nat ->
+  np_moveaxis_ok (length s) sa da = true ->
+  let order := np_moveaxis_order (length s) sa da in
+  moveaxis_to_transpose (zlen s) sa da = Some order /\ is_permb (length s) order = true
+  /\ (inb i (np_transpose_shape s (Some order)) ->
+       moveaxis_accept sa da s = Some (np_transpose_shape s (Some order))
+       /\ moveaxis_index sa da s i = np_transpose_index (Some order) i
+       /\ inb (moveaxis_index sa da s i) s).
+Proof.
+  intros sa da s i Hn Hok order. destruct (moveaxis_upto5 (length s) sa da Hn Hok) as [E P].
+  split; [exact E|]. split; [exact P|]. intros Hi. exact (moveaxis_np_upto5 sa da s i Hn Hok Hi).
+Qed.
+Print Assumptions C03_moveaxis_upto_dim5_partial.
+
 (* expand_dims (one axis or a list, negative allowed, no repetition): NumPy's shape; the view is
    the reshape to it, so C03_reshape_C_order gives the elements (ravel order unchanged) *)
 Theorem C03_expand_dims : forall ax s, pos s -> prod s < 2 ^ 64 -> np_expand_dims_ok (length s) ax = true ->
@@ -198,6 +218,12 @@ Example C03_nonvacuous_swap_expand_squeeze_atleast :
   np_swapaxes_ok 3 0 (-1) = true /\ swapaxes_accept 0 (-1) [2;3;4] = Some [4;3;2]
   /\ np_expand_dims_ok 2 (AxList [0;-1]) = true /\ shape_expand_dims [2;3] (AxList [0;-1]) = [1;2;3;1]
   /\ squeeze_accept [1;3;1;2] = Some [3;2] /\ atleast_nd_accept 4 [2;3] = Some [1;1;2;3].
+Proof. repeat split; reflexivity. Qed.
+Example C03_nonvacuous_moveaxis :
+  np_moveaxis_ok 4 (AxList [0;-1]) (AxList [2;1]) = true
+  /\ moveaxis_to_transpose 4 (AxList [0;-1]) (AxList [2;1]) = Some [1;3;0;2]
+  /\ np_moveaxis_order 4 (AxList [0;-1]) (AxList [2;1]) = [1;3;0;2]
+  /\ moveaxis_accept (AxOne 0) (AxOne (-1)) [2;3;4] = Some [3;4;2].
 Proof. repeat split; reflexivity. Qed.
 Example C03_nonvacuous_flip :
   flip_index (AxList [0;2]) [2;3;4] [0;1;1] = [1;1;2] /\ np_flip_index (AxList [0;2]) [2;3;4] [0;1;1] = [1;1;2]
